@@ -8,6 +8,17 @@ def repo_commits():
     return [l.split()[0] for l in out.splitlines() if " verif:" in " " + l]
 
 CHECKS = {
+ "C02": dict(
+  level="exploration", design="§4 C02",
+  technique="runtime monitoring: differential execution of emitted Go Read/Write against an independent schema-less Thrift codec and the IDL model, over seeded random programs and model-generated values (reflection-driven, registries added to emitted packages by go/ast)",
+  text="Random valid multi-file programs are compiled by the compiler under test; every emitted struct/union/exception/args/result type is written and read in binary, compact and JSON for model-generated values: the written encoding must equal the declared one (ids, wire types, presence rules), reference encodings with shuffled and unknown fields must read back to the same value, missing required fields must be rejected, unions with 0/2 members never written. Held on ~10^4 (quick) to ~5x10^5 (thorough) value x protocol evaluations.",
+  note="Trusted: Apache Thrift Go protocols, verif/idl + tvalue + gocodec (fields matched by declaration order; emitted IsSet<F> defines set-ness of optional fields with defaults). Core pool only claims what a careful user writes; stress classes are C11's."),
+ "C03": dict(
+  level="exploration", design="§4 C03",
+  technique="runtime monitoring: emitted clients invoked by reflection over the transport x protocol matrix against emitted processors with stub handlers generated from the emitted interfaces; exactly-once by correlation id; outcome and argument equality on model-guided wire trees; wire tap for oneway replies",
+  text="Every own and inherited method of every service of random programs is called with random arguments and handler outcomes (value, declared exception, undeclared error, application exception) over in-memory, TCP, HTTP and NATS legs x 3 protocols; the caller must observe exactly the handler's outcome and the handler exactly the caller's arguments, once.",
+  note="Trusted: as C02 plus verif/stubgen, the rig legs and the embedded nats-server. Service and method names are matched to emitted Go names modulo case/underscores."),
+
  "C13": dict(
   level="exploration", design="§4 C13",
   technique="runtime monitoring: wall-clock measurement of Request/Oneway against scripted stalling peers (adapter, NATS, HTTP) with a min-of-3 rule, error-class and registry-size assertions, goroutine-dump criterion for never-returning calls",
